@@ -483,26 +483,38 @@ def unbound_attribute_reads(prog, K):
     entries = [nm for nm in resolved if not nm.startswith("_") or (nm.startswith("__") and nm.endswith("__"))]
     out = []
     reported = set()
+    by_name = dict((k.name, k) for k in mro)
     for entry in sorted(entries):
         seen = set()
-        work = [entry]
+        work = [resolved[entry]]
         while work:
-            nm = work.pop()
-            if nm in seen or nm not in resolved:
+            f = work.pop()
+            if f is None or f.qualname in seen:
                 continue
-            seen.add(nm)
-            f = resolved[nm]
-            guarded = any(norm.call_name(c) in ("hasattr", "getattr") for c in norm.calls_in(f.node)) or \
-                any(isinstance(h.type, ast.Name) and h.type.id == "AttributeError" for t_ in ast.walk(f.node) if isinstance(t_, ast.Try)
-                    for h in t_.handlers if h.type is not None)
+            seen.add(f.qualname)
+            # probed names: hasattr(x, "a") / getattr(x, "a", ...) with a literal name excuse that name; a probe with a computed
+            # name or an AttributeError handler excuses the whole function
+            probed = set()
+            guarded = any(isinstance(h.type, ast.Name) and h.type.id == "AttributeError" for t_ in ast.walk(f.node) if isinstance(t_, ast.Try)
+                          for h in t_.handlers if h.type is not None)
+            for c in norm.calls_in(f.node):
+                if norm.call_name(c) in ("hasattr", "getattr") and isinstance(c.func, ast.Name):
+                    if len(c.args) >= 2 and isinstance(c.args[1], ast.Constant) and isinstance(c.args[1].value, str):
+                        probed.add(c.args[1].value)
+                    else:
+                        guarded = True
             for x in ast.walk(f.node):
                 if isinstance(x, ast.Attribute) and isinstance(x.ctx, ast.Load) and isinstance(x.value, ast.Name) and x.value.id == "self":
                     a = x.attr
-                    if a in bound or a in _OBJECT_ATTRS or a in ext or a in sub_bound or guarded or (a, f.qualname) in reported:
+                    if a in bound or a in _OBJECT_ATTRS or a in ext or a in sub_bound or guarded or a in probed or (a, f.qualname) in reported:
                         continue
                     reported.add((a, f.qualname))
                     out.append((a, f, x.lineno, entry))
             for c in norm.calls_in(f.node):
-                if isinstance(c.func, ast.Attribute) and isinstance(c.func.value, ast.Name) and c.func.value.id == "self":
-                    work.append(c.func.attr)
+                if isinstance(c.func, ast.Attribute) and isinstance(c.func.value, ast.Name):
+                    if c.func.value.id == "self":
+                        work.append(resolved.get(c.func.attr))
+                    elif c.func.value.id in by_name and c.args and isinstance(c.args[0], ast.Name) and c.args[0].id == "self":
+                        # the base implementation, called explicitly: Base.m(self, ...)  (also what N22 makes of super().m(...))
+                        work.append(prog.lookup(by_name[c.func.value.id], c.func.attr))
     return out
